@@ -641,6 +641,30 @@ theorem facts_match :
     triggersNilPrivSet = true ∧ viewsNilPrivSet = true ∧
     indexOrder = "return nonPrimaryIndexes[i].ID() < nonPrimaryIndexes[j].ID()" := by decide
 
+/-- SHOW CREATE TABLE takes the column list of its PRIMARY KEY clause from the key ordinals
+(`pkSchema.PkOrdinals`, key order; the scan of `col.PrimaryKey` in column order is only the fallback
+for a table without a primary-key schema) and reads the names back from the schema — `showCreatePk`. -/
+theorem facts_match_show_create_pk :
+    showCreatePkSource = ["if len(pkSchema.Schema) > 0 => pkOrdinals = pkSchema.PkOrdinals",
+      "if col.PrimaryKey && len(pkSchema.Schema) == 0 => pkOrdinals = append(pkOrdinals, idx)",
+      "range pkOrdinals => primaryKeyCols = append(primaryKeyCols, schema[idx].Name)"] := by decide
+
+/-- `routinesRowIter`: the three variables are declared without values, re-initialised at the top of the
+body of the loop over the procedures (`resetVars`), then assigned by the if / else-if chains over the
+characteristics (`chrStep`) and the security context — `routinesLoop`; a missing privilege set is
+replaced by an empty one (`routinesView true`). -/
+theorem facts_match_routines :
+    routinesAssignments = ["range procedures => securityType = \"DEFINER\"", "range procedures => isDeterministic = \"NO\"",
+      "range procedures => sqlDataAccess = \"CONTAINS SQL\"",
+      "if ch == plan.Characteristic_Deterministic => isDeterministic = \"YES\"",
+      "if ch == plan.Characteristic_NotDeterministic => isDeterministic = \"NO\"",
+      "if ch == plan.Characteristic_ContainsSql => sqlDataAccess = \"CONTAINS SQL\"",
+      "if ch == plan.Characteristic_NoSql => sqlDataAccess = \"NO SQL\"",
+      "if ch == plan.Characteristic_ReadsSqlData => sqlDataAccess = \"READS SQL DATA\"",
+      "if ch == plan.Characteristic_ModifiesSqlData => sqlDataAccess = \"MODIFIES SQL DATA\"",
+      "if procedure.SecurityContext == plan.ProcedureSecurityContext_Invoker => securityType = \"INVOKER\""] ∧
+    routinesNilPrivSetIsEmptySet = true := by decide
+
 /-- **After any history of DDL** the catalog is well-formed: every key (primary or secondary) only
 names columns that exist in its table, every trigger belongs to an existing table, table names are
 unique — across CREATE/DROP TABLE, ADD/DROP/RENAME COLUMN, CREATE/DROP INDEX, ADD/DROP PRIMARY KEY,
